@@ -30,7 +30,12 @@ ContainerNames == {t[1] : t \in ContainerT}
 TextOnly == {HsNTextarea, HsNScript}
 
 Cx1(c) == [cs |-> <<c>>, cb |-> <<>>]
-Pool == << Cx1(<<HsDirS("ltr")>>), Cx1(<<HsDirS("rtl")>>) >>
+TypeS(n) == [k |-> "type", ns |-> Bare, name |-> n]
+\* entries 3 and 4 (*:dir(x) in CSS) carry the coarser reading of HtmlState (alt): a
+\* disagreement on entry 1 / 2 is recorded as drift when the code agrees with entry 3 / 4
+DirAlt(x) == [k |-> "dir", d |-> x, alt |-> TRUE]
+Pool == << Cx1(<<HsDirS("ltr")>>), Cx1(<<HsDirS("rtl")>>),
+           Cx1(<<TypeS(Star), DirAlt("ltr")>>), Cx1(<<TypeS(Star), DirAlt("rtl")>>) >>
 ASSUME PrintT(ToJson([pool |-> [s \in 1..Len(Pool) |-> <<Pool[s]>>]]))
 
 DepthOf(p) == IF p = 0 THEN 0 ELSE Cardinality(Anc(doc, p)) + 1
@@ -54,4 +59,5 @@ Res == [s \in 1..Len(Pool) |-> MaskUpTo(Rel1(s), Len(doc.parent))]
 Emit == PrintT(ToJson([doc |-> doc, res |-> Res]))
 
 ThPartitions == HsThDir(doc)
+ThDirReadings == HsThDirReadings(doc)
 =============================================================================
